@@ -261,6 +261,10 @@ async def _run(prog, faults):
     end_ticks = CLOCK.ticks() if abs((CLOCK.t - BASE) / TICK - CLOCK.ticks()) < 1e-9 else None
     ctx_none = _transaction.get() is None
     after = await snapshot()
+    # what an untouched store shows at this instant: the initial content minus what has expired meanwhile
+    untouched = {f"{b}.{k}": None for b, k in universe}
+    for b, k, v, ttl in prog["data"]:
+        untouched[f"{b}.{k}"] = v if ttl is None or CLOCK.t < BASE + ttl * TICK else None
     # remaining lock keys (raw presence, whatever their age): `get_raw` ignores deadlines
     remaining = []
     for b, lk in lock_universe(prog):
@@ -307,6 +311,7 @@ async def _run(prog, faults):
         "now": end_ticks,
         # for the property oracle
         "before": before,
+        "untouched": untouched,
         "after": after,
         "body_end": state["body_end"],
         "body_raised": state["body_raised"],
@@ -343,7 +348,7 @@ def parse_answer(ans: str) -> dict | None:
         return None
     d = dict(p.split("=", 1) for p in ans.split(" "))
     def lst(s, sep):
-        return [] if s == "-" else s.split(sep)
+        return [] if s == "~" else s.split(sep)
     return {
         "exc": d["exc"], "ctx": d["ctx"], "trace": lst(d["trace"], ";"), "outs": lst(d["outs"], ","),
         "locks": lst(d["locks"], ","), "data": lst(d["data"], ","), "probe": d["probe"], "now": int(d["now"]),
@@ -366,6 +371,6 @@ def oracle(prog, obs) -> list[str]:
             bad.append("lock-left-although-its-unlock-did-not-fail")
         elif dl == "?":
             bad.append("left-lock-does-not-lapse-at-the-timeout")
-    if obs["body_raised"] and obs["after"] != obs["before"]:
+    if obs["body_raised"] and obs["after"] != obs["untouched"]:
         bad.append("failed-body-changed-the-store")
     return bad
